@@ -131,6 +131,7 @@ pub fn err_class(e: &jrsonnet_evaluator::Error) -> &'static str {
 		| UnaryOperatorDoesNotOperateOnType(..)
 		| ValueIndexMustBeTypeGot(..)
 		| CantIndexInto(..)
+		| ValueIsNotIndexable(..)
 		| AttemptedIndexAnArrayWithString(..)
 		| FractionalIndex => "type",
 		ImportFileNotFound(..)
